@@ -579,5 +579,10 @@ def run(tier, only=None):
         rep.note("J5b not evaluated: %s" % e)
     j7(rep)
     j8(rep)
-    j9(rep, rows, by)
+    try:
+        j9(rep, rows, by)
+    except AnalysisBroken as e:
+        if not rep.violations:
+            raise
+        rep.note("J9 not evaluated: %s" % e)
     return rep
